@@ -3,11 +3,15 @@ package sms
 import (
 	"bufio"
 	"bytes"
+	"errors"
 	"io"
 	"time"
 
 	"github.com/M2MGateway/go-smpp/coding/semioctet"
 )
+
+// ErrInvalidSemiOctets is returned for a time field cut short by a filler (0xF) nibble.
+var ErrInvalidSemiOctets = errors.New("sms: filler nibble inside a time field")
 
 type Time struct{ time.Time }
 
@@ -17,6 +21,10 @@ func (t *Time) ReadFrom(r io.Reader) (n int64, err error) {
 		return
 	}
 	blocks := semioctet.DecodeSemi(data)
+	if len(blocks) != len(data) {
+		err = ErrInvalidSemiOctets
+		return
+	}
 	t.Time = time.Date(
 		2000+blocks[0],
 		time.Month(blocks[1]),
@@ -115,6 +123,12 @@ func (d *EnhancedDuration) ReadFrom(r io.Reader) (n int64, err error) {
 		data := make([]byte, 3)
 		_, err = buf.Read(data)
 		semi := semioctet.DecodeSemi(data)
+		if len(semi) != len(data) {
+			if err == nil {
+				err = ErrInvalidSemiOctets
+			}
+			return
+		}
 		d.Duration = time.Duration(semi[0])*time.Hour +
 			time.Duration(semi[1])*time.Minute +
 			time.Duration(semi[2])*time.Second
